@@ -251,10 +251,10 @@ def seedPV : PV := { path := "/seed".toList, value := "0".toList, deleted := fal
 /-- the initial state: the configuration record exists (nobody in the repository creates v3
     configurations, the creator is the harness).  `seed = 0`: no initial value, `Committed.Values`
     reads back nil; `seed = 1`: the creator embedded one initial committed value with `UpdateStatus`;
-    `seed = 2`: it passed the value to `Create`, which puts it into the (shared) side map. -/
+    `seed = 2`: it passed the value to `Create`, which puts it into the committed side map. -/
 def initSys (seed : Nat) : Sys :=
   { cfg := { ver := 1, cValues := if seed = 1 then [("/seed".toList, seedPV)] else [] },
-    side := if seed = 2 then [("/seed".toList, seedPV)] else [] }
+    cside := if seed = 2 then [("/seed".toList, seedPV)] else [] }
 
 /-! ## The step function of the theorems -/
 
